@@ -238,6 +238,10 @@ def rule_IX(ctx, tier, scope="tower", name=None):
             if any(_INDEX.search(n) for n in names):
                 if any(e in n for n in names for e in _INDEX_EXEMPT):
                     continue
+                ix = og.strip(arg_origin(ctx, b, bb, 1))
+                if isinstance(ix, tuple) and ix[:2] == ("agg", "std::ops::RangeFull"):
+                    rr.ok("%s: `[..]` is the whole value, no bound to respect" % shortfn(fn))
+                    continue
                 need = _index_bound(arg_origin(ctx, b, bb, 1))
                 lb = _len_lower_bound(ctx, b, bb, arg_origin(ctx, b, bb, 0)) if need is not None else None
                 if need is not None and lb is not None and lb >= need:
